@@ -1851,10 +1851,34 @@ std::string expression_t::str(bool old) const
     return os.str();
 }
 
+/** The function that the callee of a function call names, or nullptr if it names none. The callee is the
+ * identifier of a function, `P.f` (DOT over a process: the member f of the template of P, whereas get_symbol()
+ * of a DOT is the symbol of P) or `p.f` with p bound to a dynamic process (DYNAMIC_EVAL over the identifier of f). */
+static function_t* called_function(const expression_t& callee)
+{
+    auto symbol = symbol_t{};
+    if (callee.get_kind() == DOT && callee[0].get_type().is_process()) {
+        if (const auto process = callee[0].get_symbol(); process != symbol_t{} && process.get_data() != nullptr) {
+            const auto* instance = static_cast<const instance_t*>(process.get_data());
+            const auto index = callee.get_index();
+            if (instance->templ != nullptr && index >= 0 && static_cast<uint32_t>(index) < instance->templ->frame.get_size())
+                symbol = instance->templ->frame[index];
+        }
+    } else if (callee.get_kind() == DYNAMIC_EVAL) {
+        symbol = callee[0].get_symbol();
+    } else {
+        symbol = callee.get_symbol();
+    }
+    if (symbol == symbol_t{})
+        return nullptr;
+    if (const auto type = symbol.get_type(); !type.is_function() && !type.is_function_external())
+        return nullptr;
+    return static_cast<function_t*>(symbol.get_data());
+}
+
 void expression_t::collect_possible_writes(set<symbol_t>& symbols) const
 {
     function_t* fun;
-    symbol_t symbol;
     type_t type;
 
     if (empty())
@@ -1884,10 +1908,7 @@ void expression_t::collect_possible_writes(set<symbol_t>& symbols) const
     case FUN_CALL:
     case FUN_CALL_EXT:
         // Add all symbols which are changed by the function
-        symbol = get(0).get_symbol();
-        if ((symbol.get_type().is_function() || symbol.get_type().is_function_external()) && symbol.get_data()) {
-            fun = (function_t*)symbol.get_data();
-
+        if (fun = called_function(get(0)); fun != nullptr) {
             symbols.insert(fun->changes.begin(), fun->changes.end());
 
             // Add arguments to non-constant reference parameters
@@ -1917,13 +1938,8 @@ void expression_t::collect_possible_reads(set<symbol_t>& symbols, bool collectRa
 
     case FUN_CALL: {
         // Add all symbols which are used by the function
-        auto symbol = get(0).get_symbol();
-        if (auto type = symbol.get_type(); type.is_function() || type.is_function_external()) {
-            if (auto* data = symbol.get_data(); data) {
-                auto fun = static_cast<function_t*>(data);
-                symbols.insert(fun->depends.begin(), fun->depends.end());
-            }
-        }
+        if (const function_t* fun = called_function(get(0)); fun != nullptr)
+            symbols.insert(fun->depends.begin(), fun->depends.end());
         break;
     }
     case RANDOM_F:
